@@ -474,8 +474,8 @@ func init() {
 		Assumptions: []string{"sequential model: a slot holds nothing or (hash, payload, value); Write stores iff value(new) >= value(current) and reports it; Read(h) returns the payload iff the slot's hash is h", "porcupine v1.3.0"},
 		Timeout:     minutes(15, 120),
 		Cases: func(tier string, seed int64) []fw.Case {
-			l := mkCases(nil, "lin", 16, seed, pick(tier, 25, 2500))
-			l = mkCases(l, "linplain", 16, seed, pick(tier, 60, 6000))
+			l := mkCases(nil, "lin", 16, seed, pick(tier, 25, 5000))
+			l = mkCases(l, "linplain", 16, seed, pick(tier, 60, 12000))
 			l = mkCases(l, "stress", 16, seed, pick(tier, 4, 200))
 			l = mkCases(l, "stressplain", 16, seed, pick(tier, 12, 600))
 			l = mkCases(l, "fill", 8, seed, pick(tier, 2, 60))
